@@ -21,3 +21,4 @@ func VDiscovBuild(hosts, key string, cc gresolver.ClientConn) (gresolver.Resolve
 }
 func VDumpResolver(r gresolver.Resolver) string { return internal.VDumpResolver(r) }
 func VConsistentResolver(r gresolver.Resolver) bool { return internal.VConsistentResolver(r) }
+func VResolverValues(r gresolver.Resolver) []string { return internal.VResolverValues(r) }
